@@ -132,6 +132,10 @@ META = {
 }
 
 
+# properties whose check has been validated on the unchanged tree (silence + break-it)
+READY = ["C01", "C02", "C03", "C04", "C06"]
+
+
 def main():
     props = [json.loads(l) for l in open(os.path.join(VERIF, "properties.jsonl"))]
     checks = []
@@ -139,7 +143,7 @@ def main():
     for p in props:
         pid = p["id"]
         mod = os.path.join(VERIF, "vf", "checks", pid.lower() + ".py")
-        if os.path.exists(mod) and pid in META:
+        if os.path.exists(mod) and pid in META and pid in READY:
             m = META[pid]
             checks.append(
                 {
